@@ -18,7 +18,11 @@ holder's greatest stamp in the log is t0 is granted to any other client's acquir
 (4) a release by a non-holder leaves the table unchanged; (5) a holder that shows up in time never
 loses its lock: at the log head a held lock changes hands only by the holder's release or by a command
 stamped later than lock time + U (`KeepMonitor`), and in the directed `stale` schedules the holder that
-prolongs every < U/2 still answers isAcquired after catching up and nobody else was granted.  Written against properties.jsonl C16, not
+prolongs every < U/2 still answers isAcquired after catching up and nobody else was granted; (6) replicas
+also reach a log position through a snapshot -- `install` (a lagging replica receives another replica's
+`_serialize()` -> pickle -> `_deserialize()` into its existing consumer, as SyncObj does) and `restart` (state
+wiped, own dump loaded): the rebuilt replica must hold exactly the donor's locks, and all monitors keep
+running across the rebuild.  Written against properties.jsonl C16, not
 against the Lean model."""
 import glob
 import hashlib
@@ -34,6 +38,7 @@ ORDER = 42
 SIG_REORDER = "batteries.ReplLockManager:stamp-reorder-mutex"
 SIG_MUTEX = "batteries.ReplLockManager:mutex-broken"
 SIG_MUTEX_STALE = "batteries.ReplLockManager:stale-stamp-mutex"
+SIG_MUTEX_SNAPSHOT = "batteries.ReplLockManager:mutex-broken-after-snapshot"
 
 
 def delay(rng, U, mode):
@@ -61,10 +66,14 @@ def gen_events(rng, U, ncl, nlk, n, mode):
             evs.append(("flush", c, rng.randrange(0, 3) if mode != "fifo" else 0))
         elif r < 0.94:
             evs.append(("deliver", c, rng.choice((1, 1, 2, 5))))
-        elif r < 0.97:
+        elif r < 0.96:
             evs.append(("part", c, rng.random() < 0.5))
-        else:
+        elif r < 0.98:
             evs.append(("heal", c))
+        elif r < 0.99:
+            evs.append(("install", c, rng.randrange(ncl)))
+        else:
+            evs.append(("restart", c))
     return evs
 
 
@@ -148,6 +157,29 @@ class World(object):
                             cb(r, 0)
                             self.sync_due(c, 0)
                         self.hit("deliver")
+                elif k in ("install", "restart"):
+                    c = cl[ev[1]]
+                    src = cl[ev[2]] if k == "install" else c
+                    if k == "restart" or (src["applied"] > c["applied"] and not c["part"]):
+                        snap = lc.snapshot_of(src["impl"])
+                        want, uwant = lc.table_of(src["impl"]), lc.unlock_time_of(src["impl"])
+                        live = [e for e in want if e[1] != ev[1] + 1 and clock.now < e[2] + U]
+                        self.hit(k + (".while-another-clients-lock-is-held" if live else ".no-foreign-lock"))
+                        if k == "restart":              # a new process: nothing in memory
+                            getattr(c["impl"], "_ReplLockManagerImpl__locks").clear()
+                        for j in range(c["applied"], src["applied"]):     # own releases covered by the snapshot
+                            cmd, _, sub = self.log[j]
+                            if cmd[0] == "rel" and sub == ev[1] + 1:
+                                c["rel_app"][cmd[1]] = c["rel_app"].get(cmd[1], 0) + 1
+                        c["impl"]._deserialize(snap)
+                        c["applied"] = src["applied"]
+                        self.hit("snapshot.rebuilds")
+                        got = lc.table_of(c["impl"])
+                        if (got != want or lc.unlock_time_of(c["impl"]) != uwant) and not self.mute_keep:
+                            self.viols.append({"signature": lc.SIG_SNAPSHOT,
+                                               "what": "replica of client %d %s at log position %d: donor has locks %s, the rebuilt replica %s"
+                                                       % (ev[1] + 1, "installed the snapshot of client %d's replica" % (ev[2] + 1) if k == "install"
+                                                          else "restarted from its own dump", c["applied"], want, got)})
                 elif k == "part":
                     cl[ev[1]]["part"] = True
                     cl[ev[1]]["so"].leader = not ev[2]      # with / without a known leader
@@ -246,7 +278,7 @@ class World(object):
                 if max(lag) > 0:
                     self.hit("held.on-lagging-replica")
             if len(holders) > 1:
-                self.viols.append({"signature": None, "holders": holders,
+                self.viols.append({"signature": SIG_MUTEX_SNAPSHOT if self.cov.get("snapshot.rebuilds") else None, "holders": holders,
                                    "what": "at common time %d clients %s all consider L%d held (U=%d); replicas at log positions %s of %d, tables %s"
                                            % (now, holders, l, self.U, [self.cl[h - 1]["applied"] for h in holders], len(self.log),
                                               [lc.table_of(self.cl[h - 1]["impl"]) for h in holders])})
@@ -345,6 +377,26 @@ def stale_case(rng):
     return {"U": U, "ncl": 3, "nlk": 2, "mode": "stale", "events": ev}
 
 
+def snapshot_case(rng, mode):
+    """Directed: Y holds L1 and prolongs every < U/2; Z's replica lags and is then brought up by Y's snapshot,
+    or Z catches up and restarts from its own dump; Z then tries: refused, Y still holds, never two holders."""
+    U = rng.choice((4, 8, 10, 12))
+    Y, Z, X, l = 0, 1, 2, 1
+    step = max(1, U // 2 - 1)
+    ev = [("try", Y, l), ("flush", Y, 0), ("deliver", Y, 5)]
+    if rng.random() < 0.5:
+        ev += [("deliver", Z, 1)]
+    for _ in range(rng.randrange(1, 4)):
+        ev += [("adv", step), ("tick", Y), ("flush", Y, 0), ("deliver", Y, 5)]
+    if rng.random() < 0.5:
+        ev += [("install", Z, Y)]
+    else:
+        ev += [("deliver", Z, 9), ("restart", Z)]
+    ev += [("adv", rng.choice((0, 0, 1))), ("try", Z, l), ("flush", Z, 0), ("deliver", Z, 9), ("deliver", Y, 9), ("deliver", X, 9),
+           ("expect_refused", Z, l), ("expect_holds", Y, l)]
+    return {"U": U, "ncl": 3, "nlk": 2, "mode": mode, "events": ev}
+
+
 def sig_of_factory(mode):
     def sig_of(v):
         if v["signature"] is not None:
@@ -366,7 +418,10 @@ def explore(ctx, bat, salt, ncases, max_viol=4):
             case = corpus[i]
         else:
             mode = ("fifo", "reorder", "stale")[i % 3]
-            if i % 4 == 0:
+            if i % 8 == 1:
+                case = snapshot_case(rng, mode)
+                cov["directed.snapshot"] = cov.get("directed.snapshot", 0) + 1
+            elif i % 4 == 0:
                 case = stale_case(rng) if mode == "stale" else directed_case(rng, mode)
                 cov["directed." + mode] = cov.get("directed." + mode, 0) + 1
             else:
@@ -380,7 +435,7 @@ def explore(ctx, bat, salt, ncases, max_viol=4):
         if first is not None:
             sig_of = sig_of_factory(case["mode"])
             passes = [False]
-            if "held-lock-dropped-before-expiry" in sig_of(w.viols[0]):
+            if "held-lock-dropped-before-expiry" in sig_of(w.viols[0]) or sig_of(w.viols[0]) == lc.SIG_SNAPSHOT:
                 passes.append(True)         # also: what do the clients themselves see on this schedule?
             for mute in passes:
                 wm, fm = (w, first) if not mute else run_case(bat, case, True)
@@ -401,7 +456,8 @@ FLOORS = ["try", "release", "tick.prolong", "tick.skip", "deliver", "partition",
           "answer.late", "log.acq", "log.pro", "log.rel", "acq.after-expiry", "rel.nonholder", "held.1",
           "held.on-lagging-replica", "flush.overtaken", "mode.fifo", "mode.reorder",
           "directed.fifo", "directed.reorder", "directed.stale", "mode.stale", "flush.stamp-older-than-U",
-          "pro.stale-while-fresh-lock-of-another-client", "expect.holder-still-holds", "expect.competitor-refused"]
+          "pro.stale-while-fresh-lock-of-another-client", "expect.holder-still-holds", "expect.competitor-refused",
+          "directed.snapshot", "install.while-another-clients-lock-is-held", "restart.while-another-clients-lock-is-held"]
 
 
 def run(ctx):
